@@ -2401,10 +2401,44 @@ evhttp_method_may_have_body_(struct evhttp_connection *evcon, enum evhttp_cmd_ty
 	return (flags & EVHTTP_METHOD_HAS_BODY) ? 1 : 0;
 }
 
+/* Looks at all Transfer-Encoding fields.  Returns 0 if there is none, 1 if
+ * they amount to the single transfer coding "chunked" (the only one we
+ * implement; empty list elements are ignored as RFC 9110 5.6.1 asks), and -1
+ * for anything else: a coding list, a repeated coding, parameters, or a final
+ * coding other than chunked. */
+static int
+evhttp_transfer_encoding_is_chunked(struct evkeyvalq *headers)
+{
+	struct evkeyval *header;
+	int seen = 0, chunked = 0;
+
+	TAILQ_FOREACH(header, headers, next) {
+		const char *p = header->value;
+		if (evutil_ascii_strcasecmp(header->key, "Transfer-Encoding") != 0)
+			continue;
+		seen = 1;
+		for (;;) {
+			size_t n;
+			p += strspn(p, ", \t");
+			n = strcspn(p, ", \t");
+			if (n == 0)
+				break;
+			if (chunked || n != 7 ||
+			    evutil_ascii_strncasecmp(p, "chunked", 7) != 0)
+				return (-1);
+			chunked = 1;
+			p += n;
+		}
+	}
+	if (!seen)
+		return (0);
+	return (chunked ? 1 : -1);
+}
+
 static void
 evhttp_get_body(struct evhttp_connection *evcon, struct evhttp_request *req)
 {
-	const char *xfer_enc;
+	int xfer_enc;
 
 	/* If this is a request without a body, then we are done */
 	if (req->kind == EVHTTP_REQUEST &&
@@ -2413,8 +2447,16 @@ evhttp_get_body(struct evhttp_connection *evcon, struct evhttp_request *req)
 		return;
 	}
 	evcon->state = EVCON_READING_BODY;
-	xfer_enc = evhttp_find_header(req->input_headers, "Transfer-Encoding");
-	if (xfer_enc != NULL && evutil_ascii_strcasecmp(xfer_enc, "chunked") == 0) {
+	xfer_enc = evhttp_transfer_encoding_is_chunked(req->input_headers);
+	if (xfer_enc == -1 && req->kind == EVHTTP_REQUEST) {
+		/* RFC 9112 6.3: the length of a request whose final transfer
+		 * coding is not chunked (or that uses codings we do not
+		 * implement) cannot be determined; answer 400 instead of
+		 * guessing that there is no body. */
+		evhttp_connection_fail_(evcon, EVREQ_HTTP_INVALID_HEADER);
+		return;
+	}
+	if (xfer_enc == 1) {
 		req->chunked = 1;
 		req->ntoread = -1;
 	} else {
